@@ -48,6 +48,8 @@ FDLEAK = dict(pkg="./server", test="TestVerifServerFdLeaks", name="fdleak", diff
 
 USE = dict(pkg="./cache/disk", test="TestVerifUseRefreshesRecency", name="use", diff=False)
 
+SRVLIMIT = dict(pkg="./server", test="TestVerifServerBlobLimits", name="srvlimit", diff=False)
+
 COMMON_TB = [
     "goroutine scheduling, sync.Mutex and the file system are modelled (atomic lock regions, process-visible file state), not verified",
 ]
@@ -94,7 +96,7 @@ PROPS = {
         level_text="Theorems on M4's proxy read-through: a hit carries exactly the back end's bytes with the announced size; every fault (error, not found, short/long stream, wrong or unknown size, oversize) yields a miss or an error, stores nothing and releases the reservation; each accepted upload is forwarded once.",
         level_note=NOTE + "partial: back-end transport libraries outside the model.", technique=TECH),
     "C18": dict(
-        lean="BR.Props.C18", runs=[DISK], trusted_base=COMMON_TB, assumptions=[],
+        lean="BR.Props.C18", runs=[DISK, SRVLIMIT], trusted_base=COMMON_TB, assumptions=[],
         level_text="Theorems on M4: Put refuses sizes above max_blob_size with a client error and unchanged state, accepts the limit itself; nothing above max_proxy_blob_size is fetched, cached or reported present on the strength of the back end.",
         level_note=NOTE + "handler-level guards tied by server correspondence runs.", technique=TECH),
     "C13": dict(
